@@ -750,6 +750,24 @@ def run_kiss_strategy(cell, g, fails, seed):
     predict_twice(fails, "kiss-strategy-grad", build, Xs, "InterpolatedPredictionStrategy", oracle(X, y), tol, msg + " (autograd enabled)", st, True)
     model = predict_twice(fails, "kiss-strategy", build, Xs, "InterpolatedPredictionStrategy", oracle(X, y), tol, msg, st, False)
     ops = 4
+    if model is not None and bounds == "auto" and xs == "inside":
+        # non-initial state: the model has predicted; its training data is replaced by inputs that leave the fitted grid's range (so the grid
+        # is re-fitted in evaluation mode) and it predicts again, inside the new range
+        with fails.guard("kiss-strategy-regrid"):
+            X2 = X * 1.9 - 0.4
+            y2 = y + 0.5
+            lo, hi = X2.min(0)[0], X2.max(0)[0]
+            Xs_old, Xs2 = Xs, lo + (hi - lo) * (0.05 + 0.9 * util.rand(g, m, d))
+            twin, _ = build(X2, y2)
+            with torch.no_grad(), S.use_toeplitz("notoep" not in st.split("+")):
+                Kall = twin.covar_module(torch.cat([X2, Xs2])).to_dense()
+            c = torch.full((n,), const, dtype=F64)
+            want = dense.conditional(Kall[:n, :n] + s2 * torch.eye(n, dtype=F64), Kall[n:, :n], Kall[n:, n:], c, c[:1].expand(m), y2)
+            with apply_settings(st), torch.no_grad():
+                model.set_train_data(X2, y2, strict=False)
+                out = model(Xs2)
+            ops += 1
+            compare_pred(fails, "kiss-strategy-regrid", out, *want, tol, "prediction after set_train_data beyond the old grid range != dense conditional on the re-fitted grid")
     if model is None or bounds == "auto":
         return ops
     ffeat = dict(feats_of(cell), what="kiss-fantasy")
